@@ -14,7 +14,9 @@ RULE = ("harness c15 at the crate's test parameter set (TestContext: N=256, rank
         "content; 15021-15031 all eleven word operations on boundary x boundary words, shift amounts 0..63, single bits, "
         "random (encrypt -> prepare through circuit bootstrapping -> op -> decrypt, and the plain Rust result); 15040 random "
         "programs of 2-3 operations chained through re-preparation; 15050-15054 blind rotation / selection / retrieval (+rev) "
-        "/ streaming retriever (15055: allocated for 1 and 2 inputs, a panic reported as a value) / cswap with directly encrypted "
+        "/ streaming retriever (15055: allocated for 1 and 2 inputs, a panic reported as a value; 15056: HISTORIES on one retriever "
+        "object — retrieve / add+flush / abandoned rounds with 1, 2, 3, half, half+1, full-capacity input counts, every capacity "
+        "class of alloc) / cswap with directly encrypted "
         "and circuit-bootstrapped selectors; 15062 circuit bootstrapping with keys generated per record at gadgets whose "
         "lookup-table coefficients reach the top of i64; 15060/15061 circuit "
         "bootstrapping of every message in constant and exponent mode (both branches of post_process), every GGSW cell "
